@@ -258,7 +258,7 @@ def step_list(ctx, g, h, sh, rng):
     ob = lambda: rng.choice([None, 0, 1, -1, n, n + 1, 2, -2])  # noqa: E731
     m = rng.choice(["append", "insert", "extend", "iadd", "remove", "pop", "delitem", "delslice", "setitem", "setslice", "clear",
                     "reverse", "index", "index_bounds", "index_bounds", "count", "getitem", "getslice", "len", "contains", "iter", "reversed",
-                    "extslice_bad", "setext", "setext"])
+                    "extslice_bad", "setext", "setext", "delext", "delext"])
     ctx.count("list." + m)
     v = rng.choice(l) if (l and rng.random() < 0.3) else rng.choice(mods)
     vs = list(dict.fromkeys(rng.choice(mods) for _ in range(rng.choice([0, 1, 2, 3]))))
@@ -325,6 +325,14 @@ def step_list(ctx, g, h, sh, rng):
                 del ml[a:b]
         def fs(): del l[a:b]
         ri = call(g, fi); rs = call(g, fs); item = [10, ir, world.opt(a), world.opt(b)]
+    elif m == "delext":
+        # deletion of an extended slice: any step, forwards and backwards (and 0: ValueError, nothing touched)
+        a, b = ob(), ob()
+        st = rng.choice([2, -1, -2, 3, -3, -1, 0, 1])
+        desc = "del n%d.modules[%s:%s:%s]" % (ir, a, b, st)
+        def fi(): del ml[a:b:st]
+        def fs(): del l[a:b:st]
+        ri = call(g, fi); rs = call(g, fs); item = [33, ir, world.opt(a), world.opt(b), st]
     elif m == "setitem":
         if l and rng.random() < 0.25:
             v = rng.choice(l)          # a module this list already holds: it is moved to the position (not duplicated)
